@@ -96,7 +96,7 @@ func (f *Frame) tryLoad(p Val, t types.Type, h *Heap) (Term, bool) {
 	case *types.Array:
 		a := t.Underlying().(*types.Array)
 		es := f.w.Sorts.SortOf(a.Elem())
-		return Sel(h.Comp(memComp(es), memSort(es)), p.T), true
+		return Sel(h.Comp(memCompT(a.Elem()), memSort(es)), p.T), true
 	}
 	so := f.w.Sorts.SortOf(t)
 	return Sel(h.Comp(cellComp(so), ArraySort(SInt, so)), p.T), true
@@ -111,7 +111,7 @@ func (f *Frame) store(p Val, t types.Type, v Term, h *Heap) *Heap {
 		return f.structRefStore(h, t, p.T, v)
 	case *types.Array:
 		es := f.w.Sorts.SortOf(u.Elem())
-		comp := memComp(es)
+		comp := memCompT(u.Elem())
 		return h.Set(comp, f.vc.Define("h."+comp, Store(h.Comp(comp, memSort(es)), p.T, v)))
 	}
 	so := f.w.Sorts.SortOf(t)
@@ -515,7 +515,7 @@ func (f *Frame) value(ins ssa.Value, st State) (Val, State) {
 			return Val{T: r}, st
 		case *types.Array:
 			es := f.w.Sorts.SortOf(u.Elem())
-			comp := memComp(es)
+			comp := memCompT(u.Elem())
 			st.Heap = st.Heap.Set(comp, vc.Define("h."+comp, Store(st.Heap.Comp(comp, memSort(es)), r, f.zeroArr(es))))
 			return Val{T: r}, st
 		}
@@ -555,7 +555,7 @@ func (f *Frame) value(ins ssa.Value, st State) (Val, State) {
 		case *types.Slice:
 			es := f.w.Sorts.SortOf(u.Elem())
 			f.safety("bounds", st, And(Le(IntLit(0), i), Lt(i, SLen(x.T))), "index out of range at "+f.pos(ins))
-			return Val{Loc: &Loc{Kind: locElem, Comp: memComp(es), CompSort: memSort(es), Base: SArr(x.T), Idx: i, Off: SOff(x.T), Sort: es, Root: es, Type: u.Elem()}}, st
+			return Val{Loc: &Loc{Kind: locElem, Comp: memCompT(u.Elem()), CompSort: memSort(es), Base: SArr(x.T), Idx: i, Off: SOff(x.T), Sort: es, Root: es, Type: u.Elem()}}, st
 		case *types.Pointer:
 			a := u.Elem().Underlying().(*types.Array)
 			es := f.w.Sorts.SortOf(a.Elem())
@@ -565,7 +565,7 @@ func (f *Frame) value(ins ssa.Value, st State) (Val, State) {
 			}
 			f.safety("nil", st, Ne(x.T, IntLit(0)), "nil array pointer at "+f.pos(ins))
 			f.safety("bounds", st, And(Le(IntLit(0), i), Lt(i, IntLit(a.Len()))), "index out of range at "+f.pos(ins))
-			return Val{Loc: &Loc{Kind: locElem, Comp: memComp(es), CompSort: memSort(es), Base: x.T, Idx: i, Off: IntLit(0), Sort: es, Root: es, Type: a.Elem()}}, st
+			return Val{Loc: &Loc{Kind: locElem, Comp: memCompT(a.Elem()), CompSort: memSort(es), Base: x.T, Idx: i, Off: IntLit(0), Sort: es, Root: es, Type: a.Elem()}}, st
 		}
 	case *ssa.Index:
 		x := f.val(ins.X).T
@@ -613,7 +613,7 @@ func (f *Frame) value(ins ssa.Value, st State) (Val, State) {
 		r, h := f.allocRef(st, ins.Name())
 		st.Heap = h
 		es := f.w.Sorts.SortOf(ins.Type().Underlying().(*types.Slice).Elem())
-		comp := memComp(es)
+		comp := memCompT(ins.Type().Underlying().(*types.Slice).Elem())
 		st.Heap = st.Heap.Set(comp, vc.Define("h."+comp, Store(st.Heap.Comp(comp, memSort(es)), r, f.zeroArr(es))))
 		return Val{T: MkSlice(r, IntLit(0), n, c)}, st
 	case *ssa.MakeMap:
@@ -732,7 +732,7 @@ func (f *Frame) convert(ins *ssa.Convert, st State) (Val, State) {
 		case *types.Slice:
 			es := f.w.Sorts.SortOf(u.Elem())
 			if eb, ok := u.Elem().Underlying().(*types.Basic); ok && eb.Kind() == types.Uint8 {
-				m := st.Heap.Comp(memComp(es), memSort(es))
+				m := st.Heap.Comp(memCompT(u.Elem()), memSort(es))
 				i := Term{"i", SInt}
 				vc.Assume(Implies(st.PC, Eq(StrLen(r), SLen(x.T))))
 				vc.Assume(Forall([]Term{i}, Implies(And(st.PC, Le(IntLit(0), i), Lt(i, SLen(x.T))),
@@ -757,7 +757,7 @@ func (f *Frame) convert(ins *ssa.Convert, st State) (Val, State) {
 			ref, h := f.allocRef(st, ins.Name())
 			st.Heap = h
 			arr := vc.Fresh("arr", ArraySort(SInt, es))
-			comp := memComp(es)
+			comp := memCompT(u.Elem())
 			st.Heap = st.Heap.Set(comp, vc.Define("h."+comp, Store(st.Heap.Comp(comp, memSort(es)), ref, arr)))
 			if eb, ok := u.Elem().Underlying().(*types.Basic); ok && eb.Kind() == types.Uint8 {
 				o, i := Term{"o", SInt}, Term{"i", SInt}
